@@ -175,8 +175,8 @@ class C16(Prop):
     id = "C16"
     title = "density-operator network from a pure state"
     design_ref = "DESIGN.md section 5 / C16"
-    rule = ("setups: every rooted ordered tree with <= 4 nodes (thorough: <= 5, quick: a seeded sample of the 5-node trees) and random "
-            "trees with 6-8 nodes, each with root bond dimension k in {1,2,3}, physical dimensions in {1,2,3}, bond dimensions in {1,2,3}, "
+    rule = ("setups: every rooted ordered tree with <= 5 nodes (quick: 2, thorough: 12 repetitions with fresh dimensions / names / tensors; thorough also every 6-node tree three times) and random "
+            "trees with 6-8 nodes, each with root bond dimension k in {1,2,3} (larger trees: one random k), physical dimensions in {1,2,3}, bond dimensions in {1,2,3}, "
             "random complex unnormalised tensors with shuffled legs, plain / tricky node names (bra suffix inside a name, underscores; "
             "a separate variant with the ket suffix inside a name, outside the stated precondition). Per setup one case each for: build "
             "(structure), trace, TTNO expectation (non-Hermitian Hamiltonian with coefficients), tensor products on 0,1,...,N sites "
@@ -210,24 +210,25 @@ class C16(Prop):
     def __init__(self):
         self._known_all = {k["id"]: k.get("status") for k in lib.load_known() if k.get("property") == "C16"}
         self._stats = Counter()
+        self._inst = [0, 0]       # per-instance kernel-checked obligations: store_check / wires_check = true
 
     # ---------------------------------------------------------------------------------------
     def _setups(self, ctx, rng, stream, budget_scale):
         trees = []
-        small = 5 if ctx.thorough() else 4
-        for n in range(1, small + 1):
+        for n in range(1, 6):
             trees += util.all_parents(n)
-        if not ctx.thorough():
-            five = util.all_parents(5)
-            trees += rng.sample(five, 4 * budget_scale if 4 * budget_scale <= len(five) else len(five))
+        reps = ctx.scale(2, 12)
+        large = [util.random_parents(rng, rng.choice([6, 6, 7, 8])) for _ in range(ctx.scale(8, 120) * budget_scale)]
+        if ctx.thorough():
+            large += util.all_parents(6) * 3
         if stream != "main":
             trees = [util.random_parents(rng, rng.randrange(1, 6)) for _ in range(10 * budget_scale)]
-        nlarge = ctx.scale(3, 30) * budget_scale
-        large = [util.random_parents(rng, rng.choice([6, 6, 7, 8])) for _ in range(nlarge)]
+            reps = 1
         out = []
-        for par in trees:
-            for k in (1, 2, 3):
-                out.append((par, k))
+        for _ in range(reps):
+            for par in trees:
+                for k in (1, 2, 3):
+                    out.append((par, k))
         for par in large:
             out.append((par, rng.choice([1, 2, 3])))
         setups = []
@@ -261,8 +262,6 @@ class C16(Prop):
             n = len(st["parents"])
             cases.append(dict(st, op="build"))
             cases.append(dict(st, op="trace"))
-            if st["variant"] == "suffix":
-                continue
             for _ in range(ctx.scale(1, 2)):
                 cases.append(dict(st, op="ttno", nterms=rng.randrange(1, 5), hseed=rng.randrange(10 ** 9), coeffs=rng.random() < 0.7))
             sizes = list(range(0, n + 1)) if n <= 5 else sorted(set([0, 1, 2, n] + [rng.randrange(0, n + 1) for _ in range(3)]))
@@ -401,6 +400,7 @@ class C16(Prop):
                 d = dims[nm]
                 mats.append(nprs.standard_normal((d, d)) + 1j * nprs.standard_normal((d, d)))
             opd = {nm: m for nm, m in zip(sites, mats)}
+            ob["receiver_trace_before"] = cplx(ttndo.trace())
             rec = Recorder(ttndo, mats)
             with rec:
                 if case["via"] == "single" and len(sites) == 1:
@@ -443,8 +443,8 @@ class C16(Prop):
                 where.append((i, "obs"))
                 exprs.append(f"Store.observe (fst (from_ttns_store {args}))")
                 where.append((i, "store"))
-                exprs.append(f"map code (contraction_order_s {coq_string(c['root_id'])} {coq_string(KSUF)} {coq_string(BSUF)} "
-                             f"{coq_names(c['names'])} {t})")
+                tail = f"{coq_string(c['root_id'])} {coq_string(KSUF)} {coq_string(BSUF)} {coq_names(c['names'])} {t}"
+                exprs.append(f"(map code (contraction_order_s true {tail}), map code (contraction_order_s false {tail}))")
                 where.append((i, "order"))
             elif c["op"] == "tp":
                 nodes = coq_list(c["sites"], coq_nat)
@@ -483,8 +483,10 @@ class C16(Prop):
     def compare(self, case, ob, mo):
         op = case["op"]
         if "exception" in ob:
-            if op in ("trace", "ttno", "tp"):
-                return None if op != "tp" else f"implementation raised {ob['exception']} where the model runs"
+            if op in ("trace", "ttno"):
+                return None             # no model for the numerical paths: the oracle reports the exception
+            if op == "tp" and case.get("variant") == "suffix":
+                return None             # outside the stated precondition (the oracle decides, see _suffix_gate)
             return f"implementation raised {ob['exception']} where the model runs"
         if op == "ids":
             rows_m = mo["ids"]
@@ -499,6 +501,8 @@ class C16(Prop):
             def nm(c):
                 return table[c] if c < len(table) else f"?{c}"
             (recs, order, eye, pad, (store_ok, wires_ok)) = mo["obs"]
+            self._inst[0] += 2
+            self._inst[1] += int(bool(store_ok)) + int(bool(wires_ok))
             if not store_ok:
                 return "model: the store program of from_ttns does not reproduce the direct description (store_check = false)"
             if not wires_ok:
@@ -524,9 +528,10 @@ class C16(Prop):
                 return "a ket tensor differs from the state's tensor or a bra tensor from its conjugate (slice 0 for the root)"
             if not ob["source_unchanged"]:
                 return "from_ttns changed the state it was built from"
-            want_order = [nm(c) for c in mo["order"]]
-            if ob["order"] != want_order:
-                return f"contraction order: impl {ob['order']} model {want_order}"
+            # either filter variant of the model: the regex of the code as it stands or the repaired endswith
+            want_orders = [[nm(c) for c in o] for o in mo["order"]]
+            if ob["order"] not in want_orders:
+                return f"contraction order: impl {ob['order']} model (regex filter) {want_orders[0]} (endswith filter) {want_orders[1]}"
             for i, name in enumerate(case["names"]):
                 want = [name + KSUF, name + BSUF, name, name + BSUF, name, name + KSUF]
                 if ob["idmaps"][i] != want:
@@ -589,14 +594,16 @@ class C16(Prop):
             for key in ("value", "value2"):
                 v = uncplx(ob[key])
                 if not self._close(v, ref, ob["scale"]):
-                    return f"TTNO expectation {key} = {v} but <psi|H|psi> = {ref} (k={case['k']}, tree {case['parents']})"
+                    msg = f"TTNO expectation {key} = {v} but <psi|H|psi> = {ref} (k={case['k']}, tree {case['parents']})"
+                    return self._suffix_gate(case, msg) if outside else msg
             return None
         if op == "tp":
             ref = uncplx(ob["ref"])
             sc = ob["scale"]
-            if not self._close(uncplx(ob["receiver_trace_after"]), nrm, abs(nrm)):
-                return "tensor product: the receiver no longer has trace <psi|psi> after the call"
             if self._close(val, ref, sc):
+                if not self._close(uncplx(ob["receiver_trace_after"]), uncplx(ob["receiver_trace_before"]), abs(nrm)):
+                    return (f"tensor product on sites {case['sites']}: the call changed the receiver, its trace went from "
+                            f"{uncplx(ob['receiver_trace_before'])} to {uncplx(ob['receiver_trace_after'])}")
                 return None
             m = len(case["sites"])
             if m == 0 and self._close(val, uncplx(ob["ref_sp"]), abs(nrm) ** 2):
@@ -605,7 +612,8 @@ class C16(Prop):
             if m >= 2 and self._close(val, uncplx(ob["ref_last"]), sc):
                 return (f"tensor product of {m} factors: value {val} equals the value with only the last factor applied, "
                         f"<psi|(x)O|psi> = {ref} [last-only] (tree {case['parents']}, sites {case['sites']}, k={case['k']})")
-            return f"tensor product on sites {case['sites']}: value {val} but <psi|(x)O|psi> = {ref} (tree {case['parents']}, k={case['k']})"
+            msg = f"tensor product on sites {case['sites']}: value {val} but <psi|(x)O|psi> = {ref} (tree {case['parents']}, k={case['k']})"
+            return self._suffix_gate(case, msg) if outside else msg
         return None
 
     def classify(self, case, what, known):
@@ -618,6 +626,12 @@ class C16(Prop):
         if case.get("variant") == "suffix" and "[id-contains-ket-suffix]" in what and K_SUFFIX in known:
             return K_SUFFIX
         return None
+
+    def extra_obligations(self, ctx):
+        """store_check and wires_check evaluated by vm_compute for every explored build case (soundness: C16_store_check_sound)"""
+        total, ok = self._inst
+        fails = [] if ok == total else [f"{total - ok} of {total} per-instance store checks evaluated to false"]
+        return total, ok, fails
 
     def sample_repr(self, case):
         return case
